@@ -636,3 +636,86 @@ func (s *Sess) NewInstance(k int, typename, name string, extra map[string]string
 	}
 	return nil
 }
+
+// WellFormed checks the C07 well-formedness conditions directly on raw repo infos
+// (single root per repo, acyclic by version order, mirrored parent/child links without
+// duplicates, parents committed, UUIDs and version ids unique across repos).
+func WellFormed(repos map[string]RepoInfo) []string {
+	var errs []string
+	seenU := map[string]string{}
+	seenV := map[int]string{}
+	for root, ri := range repos {
+		v2u := map[int]string{}
+		for u, nd := range ri.DAG.Nodes {
+			if prev, dup := seenU[u]; dup {
+				errs = append(errs, fmt.Sprintf("uuid %s in repos %s and %s", u, prev, root))
+			}
+			seenU[u] = root
+			if prev, dup := seenV[nd.VersionID]; dup {
+				errs = append(errs, fmt.Sprintf("version id %d names %s and %s", nd.VersionID, prev, u))
+			}
+			seenV[nd.VersionID] = u
+			v2u[nd.VersionID] = u
+		}
+		nroots := 0
+		for u, nd := range ri.DAG.Nodes {
+			if len(nd.Parents) == 0 {
+				nroots++
+				if u != ri.DAG.Root {
+					errs = append(errs, fmt.Sprintf("node %s has no parents but is not root of %s", u, root))
+				}
+			}
+			cnt := map[int]int{}
+			for _, pv := range nd.Parents {
+				cnt[pv]++
+				pu, ok := v2u[pv]
+				if !ok {
+					errs = append(errs, fmt.Sprintf("node %s: parent version %d not in repo", u, pv))
+					continue
+				}
+				p := ri.DAG.Nodes[pu]
+				if !p.Locked {
+					errs = append(errs, fmt.Sprintf("node %s hangs off uncommitted parent %s", u, pu))
+				}
+				if pv >= nd.VersionID {
+					errs = append(errs, fmt.Sprintf("node %s (v%d) has parent v%d", u, nd.VersionID, pv))
+				}
+				c := 0
+				for _, cv := range p.Children {
+					if cv == nd.VersionID {
+						c++
+					}
+				}
+				if c != 1 {
+					errs = append(errs, fmt.Sprintf("parent %s lists child %s %d times", pu, u, c))
+				}
+			}
+			for pv, c := range cnt {
+				if c > 1 {
+					errs = append(errs, fmt.Sprintf("node %s lists parent v%d %d times", u, pv, c))
+				}
+			}
+			for _, cv := range nd.Children {
+				cu, ok := v2u[cv]
+				if !ok {
+					errs = append(errs, fmt.Sprintf("node %s: child version %d not in repo", u, cv))
+					continue
+				}
+				c := 0
+				for _, pv := range ri.DAG.Nodes[cu].Parents {
+					if pv == nd.VersionID {
+						c++
+					}
+				}
+				if c != 1 {
+					errs = append(errs, fmt.Sprintf("child %s lists parent %s %d times", cu, u, c))
+				}
+			}
+		}
+		if nroots != 1 {
+			errs = append(errs, fmt.Sprintf("repo %s has %d parentless nodes", root, nroots))
+		}
+	}
+	sort.Strings(errs)
+	return errs
+}
